@@ -50,6 +50,7 @@ func runC09(c *Ctx, r *Report) {
 	r.Rule("C09.R2", "depth guard: State.Eval compares depth with MaxDepth before incrementing, panics beyond it and decrements after evaluating; applyFunction evaluates the callee body through Eval; every other recursive cycle reachable from program text (static calls and interface invokes, Eval removed) is enumerated: each is bounded only by source or data nesting, is a known finding, and a new one is a violation")
 	r.Rule("C09.R3", "program-bounded loops: a Go loop in the evaluator whose trip count derives from a program integer re-enters the evaluator (context check) on every iteration, or its trip count is bounded by a size that passed the memory guard")
 	r.Rule("C09.R4", "guarded allocation: make / strings.Repeat / string concatenation sized by program values is dominated by the memory guard on that size; a guarded size that is a product of program values is protected against overflow; SizeOk rejects negative sizes")
+	r.Rule("C09.R9", "the limits of the command line reach every state: wherever packages main and repl call eval.NewState() in a function that has a repl.Options value at hand, the new state's MaxDepth, MaxValueLen and NoReg are stored from the Options fields of the same name")
 	r.Rule("C09.R6", "live figures: the value object.FreeMemory returns is computed from a debug.SetMemoryLimit(-1) query and a runtime.ReadMemStats reading made by that very call, and from no package-level variable")
 	r.Rule("C09.R7", "deadline inheritance: wherever package eval or extensions creates an eval.State (NewBlankState/NewState) in a function that has a running *State at hand, the new state's Context is assigned from a running state's Context")
 	r.Rule("C09.R8", "deadline hand-back: in package extensions, after a store of a deadline-free context (context.WithCancel(context.Background())) into State.Context, every path to a return (followed with correlated tests of state fields against nil) passes another store to State.Context or a defer of a closure that makes one")
@@ -219,6 +220,7 @@ func runC09(c *Ctx, r *Report) {
 	}
 	r.Floor("C09.R2", 8)
 
+	c.checkOptionsReachStates(r, "C09.R9")
 	// ---- R3 / R4 ----
 	c.checkProgramLoopsAndAllocs(r)
 
